@@ -291,6 +291,8 @@ func spec_isNewer(g Generator) bool { _, ok := g.(GeneratorNewer); return ok }
 //@   assigns *
 //@   preserves pkg/gengo. pkg/types.Universe. go/ast. go/token. golang.org/x/tools/go/packages. except pkg/gengo.gengoCtx.defers, pkg/gengo.gengoCtx.ignore
 //@   ensures fresh(result)
+//@   ensures !spec_isNewer(generator) ==> spec_zeroValue(result)
+//@   note the zero-value clause: without a custom New the per-package generator is a ZERO value of the prototype's type: no field (map, pointer, slice) of the registered prototype is carried over or shared
 //@   note every package gets its own generator value: a freshly allocated one (reflect.New of the prototype's type), never the registered prototype itself; for a generator with a custom New this is the ASSUMED contract of that constructor (fresh-result)
 
 //@ func newGenfile
@@ -572,6 +574,8 @@ func spec_any[T any](p func(T) bool) bool               { panic("ghost: unbounde
 func spec_fresh(p any) bool                             { panic("ghost: allocation predicate") }
 // spec_existed(p): the object p refers to already existed when the function under verification was entered.
 func spec_existed(p any) bool { panic("ghost: allocation predicate") }
+// spec_zeroValue(p): p was allocated by reflect.New and nothing has been stored into it through reflection since: it holds the zero value of its type (ghost).
+func spec_zeroValue(p any) bool { panic("ghost: zero-value predicate") }
 func spec_assert(c bool) {
 	if !c {
 		panic("ghost assertion failed")
